@@ -24,6 +24,14 @@ def branchCall (params : List Str) (s : List TEvent) : Except Err (List BEvent Ã
       let (b, head, tail) â† msgBuffer params s
       pure (head.map .ev ++ (.msgbuf :: tail.map .ev), b)
 
+/-- `StripDirective.__call__` with an empty expression (`py:strip=""`): the first and the last
+    event of the stream are dropped (`next()` twice inside the generator) -/
+def stripEnds (s : List TEvent) : Except Err (List TEvent) :=
+  match s with
+  | [] => .error .stopIteration
+  | [_] => .error .stopIteration
+  | _ :: rest => pure rest.dropLast
+
 /-- is the event a SUB with a branch directive among its directives -/
 def isBranchSub : TEvent â†’ Bool
   | .sub dirs _ => dirs.any Dir.isBranch
@@ -45,9 +53,19 @@ def choosePass1 (params : List Str) (isPlural : Bool) : List TEvent â†’ ChooseSt
             match branchCall params body with
             | .error e => some (.error e)
             | .ok r => choosePass1 params isPlural es { st with newStream := st.newStream ++ [none], sing := some r }
+        | [.singular, .strip] =>
+            match stripEnds body >>= branchCall params with
+            | .error e => some (.error e)
+            | .ok r => choosePass1 params isPlural es { st with newStream := st.newStream ++ [none], sing := some r }
         | [.plural] =>
             if isPlural then
               match branchCall params body with
+              | .error e => some (.error e)
+              | .ok r => choosePass1 params isPlural es { st with plur := some r }
+            else choosePass1 params isPlural es st
+        | [.plural, .strip] =>
+            if isPlural then
+              match stripEnds body >>= branchCall params with
               | .error e => some (.error e)
               | .ok r => choosePass1 params isPlural es { st with plur := some r }
             else choosePass1 params isPlural es st
